@@ -243,12 +243,19 @@ def run_cases(prop_id: str, header: str, case_type: str, verdict_fn: str,
     Returns dict(mismatch=[global idx], bad=[...], nontrivial=[...], errors=[...]).
     """
     os.makedirs(GEN, exist_ok=True)
+    # file names carry the pid: several runs of one property's check (unchanged tree, scratch
+    # copies with AIUTI_REPO) may evaluate cases at the same time without disturbing each other
+    me = f'p{os.getpid()}'
     for old in glob.glob(os.path.join(GEN, f'cases_{prop_id}{tag}_*')):
-        os.unlink(old)
+        try:
+            if f'_{me}_' in old or time.time() - os.path.getmtime(old) > 7200:
+                os.unlink(old)
+        except OSError:
+            pass
     files = []
     for ci, start in enumerate(range(0, len(literals), chunk)):
         part = literals[start:start + chunk]
-        path = os.path.join(GEN, f'cases_{prop_id}{tag}_{ci:04d}.v')
+        path = os.path.join(GEN, f'cases_{prop_id}{tag}_{me}_{ci:04d}.v')
         with open(path, 'w') as f:
             f.write(header + '\n')
             f.write(f'Definition cases : list ({case_type}) :=\n  [\n   ')
@@ -272,10 +279,11 @@ def run_cases(prop_id: str, header: str, case_type: str, verdict_fn: str,
             res['mismatch'] += [start + i for i in lists[0]]
             res['bad'] += [start + i for i in lists[1]]
             res['nontrivial'] += [start + i for i in lists[2]]
-    # keep the directory small: compiled cases are not needed afterwards
+    # keep the directory small: compiled cases are not needed afterwards (VERIF_KEEP_CASES=1 keeps the .v)
+    exts = ('.vo', '.vok', '.vos', '.glob') + (() if os.environ.get('VERIF_KEEP_CASES') or res['errors'] else ('.v',))
     for _, path in files:
         base = path[:-2]
-        for ext in ('.vo', '.vok', '.vos', '.glob'):
+        for ext in exts:
             try:
                 os.unlink(base + ext)
             except FileNotFoundError:
